@@ -12,7 +12,7 @@ KNOWN_ARCHS = ["x86", "armthumb", "riscv"]      # scan step depends on content: 
 WGET = {"x86": "wget-x86", "arm": "wget-arm", "armthumb": "wget-arm-thumb", "arm64": "wget-arm64", "ppc": "wget-ppc",
         "sparc": "wget-sparc", "ia64": "wget-ia64", "riscv": "wget-riscv"}
 
-ASBUILT_FILE = os.path.join(core.VERIF, "spec", "asbuilt.json")
+ASBUILT_FILE = os.path.join(core.VERIF, "spec", "asbuilt_filters.json")
 
 
 def asbuilt(section, default):
